@@ -422,6 +422,13 @@ pub struct Prog {
     pub globals: Vec<Decl>,
     pub vars: Vec<Decl>,
     pub body: Vec<S>,
+    /// program variables located at direct input addresses: (variable, address such as `%IW0`)
+    #[serde(default)]
+    pub at: Vec<(String, String)>,
+    /// input trace: per cycle, the values written into the input image before the cycle
+    /// (variable name, value of the variable's declared type)
+    #[serde(default)]
+    pub inputs: Vec<Vec<(String, V)>>,
 }
 
 // ---------------------------------------------------------------------------------------------
@@ -612,7 +619,23 @@ pub fn print(p: &Prog) -> String {
         let _ = writeln!(out, "END_FUNCTION_BLOCK\n");
     }
     let _ = writeln!(out, "PROGRAM Main");
-    p_decls(&mut out, "VAR", &p.vars);
+    if p.at.is_empty() {
+        p_decls(&mut out, "VAR", &p.vars);
+    } else {
+        let _ = writeln!(out, "VAR");
+        for d in &p.vars {
+            let at = p.at.iter().find(|(n, _)| n == &d.name).map(|(_, a)| format!(" AT {a}")).unwrap_or_default();
+            match &d.init {
+                Some(v) => {
+                    let _ = writeln!(out, "    {}{at} : {} := {};", d.name, p_ty(&d.ty), v.typed_lit());
+                }
+                None => {
+                    let _ = writeln!(out, "    {}{at} : {};", d.name, p_ty(&d.ty));
+                }
+            }
+        }
+        let _ = writeln!(out, "END_VAR");
+    }
     p_stmts(&mut out, &p.body, 1);
     let _ = writeln!(out, "END_PROGRAM");
     out
